@@ -37,6 +37,43 @@ fn verif_replay() {
         }
         return;
     }
+    if case["driver"].as_str() == Some("handshake_failure_record") {
+        // the real h11c_handshake on a registered connection whose client sends the given request; afterwards every reference is
+        // gone and Drop has queued the record for the collector: how does the record end?
+        let kind = a["kind"].as_str().unwrap_or("garbage").to_string();
+        let rt = tokio::runtime::Builder::new_current_thread().enable_all().build().unwrap();
+        let out = rt.block_on(async move {
+            use tokio::io::AsyncWriteExt;
+            let (mut peer, ours) = tokio::io::duplex(65536);
+            let bytes: &[u8] = match kind.as_str() {
+                "garbage" => b"\x01\x02 nonsense\r\n\r\n",
+                "hangup" => b"",
+                "get" => b"GET / HTTP/1.1\r\nHost: x\r\n\r\n",
+                "bad-protocol" => b"CONNECT example.org:80 HTTP/1.1\r\nProxy-Protocol: xyz\r\n\r\n",
+                "bad-target" => b"CONNECT nocolonhere HTTP/1.1\r\n\r\n",
+                _ => b"CONNECT example.org:53 HTTP/1.1\r\nProxy-Protocol: udp\r\nProxy-Channel: quic-datagrams\r\n\r\n",
+            };
+            peer.write_all(bytes).await.ok();
+            if kind == "hangup" { drop(peer); tokio::time::sleep(std::time::Duration::from_millis(20)).await; let (p2, _o2) = tokio::io::duplex(8); peer = p2; }
+            let state: Arc<CtxState> = Default::default();
+            let ctx = state.create_context("l".into(), "127.0.0.1:1".parse().unwrap()).await;
+            ctx.write().await.set_client_stream(make_buffered_stream(ours));
+            let (tx, mut rx) = tokio::sync::mpsc::channel(4);
+            let r = tokio::time::timeout(std::time::Duration::from_secs(2), h11c_handshake(ctx, tx, |_ch, _id| async { bail!("no such channel here") })).await;
+            let routed = rx.try_recv().is_ok();
+            drop(peer);
+            let rec = state.gc_list.lock().unwrap().last().map(|p| serde_json::to_value(&**p).unwrap_or_default());
+            let (states, error) = match &rec {
+                Some(v) => (v["state"].as_array().map(|x| x.iter().map(|e| e["state"].as_str().unwrap_or("?").to_string()).collect::<Vec<_>>()).unwrap_or_default(), v["error"].as_str().map(|x| x.to_string())),
+                None => (vec![], None),
+            };
+            let terminal = states.last().map(|x| x == "ErrorOccured" || x == "Terminated").unwrap_or(false);
+            serde_json::json!({"panicked": false, "kind": kind, "handshake": format!("{:?}", r.map(|x| x.map_err(|e| e.to_string()))), "routed": routed, "record_found": rec.is_some(),
+                               "states": states, "error_text": error, "record_ends_in_a_terminal_state_with_text": terminal && error.is_some()})
+        });
+        println!("VERIF-OUTCOME {}", out);
+        return;
+    }
     if case["driver"].as_str() == Some("connect_line") {
         // the CONNECT request the connector writes for a destination, read by the real request reader of the next hop
         let text = a["target"].as_str().unwrap_or("example.org:443").to_string();
